@@ -655,6 +655,11 @@ class Exec:
             if v[2] == 'None':
                 return [(st, a[1])]
             return self.invoke(a[2], [v[3][0]], st)
+        if re.search(r'str::<impl str>::trim$', n):
+            return [(st, ('trimmed', a[0]))]
+        if re.search(r'(str::<impl str>|String)::is_empty$', n) and isinstance(a[0], tuple) and a[0] and a[0][0] == 'trimmed':
+            ws = z3.Union(*[z3.Re(c) for c in ' \t\n\r\x0b\x0c\x85\xa0\u1680\u2028\u2029\u202f\u205f\u3000'] + [z3.Range('\u2000', '\u200a')])
+            return self.fork_bool(z3.InRe(self.as_str(a[0][1]), z3.Star(ws)), st)
         if n.endswith('String::is_empty'):
             return self.fork_bool(z3.Length(self.as_str(a[0])) == 0, st)
         if re.search(r'Argument::<.*>::new_display::<.*>$', n):
@@ -667,10 +672,10 @@ class Exec:
                 return [(st, self.as_str(v))]
             except Unsupported:
                 return [(st, ('opaque', 'formatted'))]
-        m = re.search(r'Option::<.*>::(is_none|is_some|as_ref|unwrap|cloned|copied)$', n)
+        m = re.search(r'Option::<.*>::(is_none|is_some|as_ref|as_deref|unwrap|cloned|copied)$', n)
         if m:
             v = a[0]
-            if m.group(1) in ('as_ref', 'cloned', 'copied'):
+            if m.group(1) in ('as_ref', 'as_deref', 'cloned', 'copied'):
                 return [(st, v)]
             if not (isinstance(v, tuple) and v[0] == 'enum' and v[1] == 'Option'):
                 if isinstance(v, Obj):
